@@ -1062,18 +1062,88 @@ pub fn lie_filters(_sim: &mut Sim, _p: usize, m: packed::BlockFilters) -> packed
     m
 }
 
-pub fn lie_hashes(
-    _sim: &mut Sim,
-    _p: usize,
-    m: packed::BlockFilterHashes,
-) -> (packed::BlockFilterHashes, bool) {
-    (m, false)
+fn lie_value(salt: u64, number: u64) -> Byte32 {
+    let mut b = [0u8; 32];
+    let mut x = mix(&[salt, number, 0x11e]);
+    for c in b.chunks_mut(8) {
+        c.copy_from_slice(&crate::entropy::splitmix(&mut x).to_le_bytes());
+    }
+    b.pack()
 }
 
+/// A deviating peer reports made-up filter hashes from block `lie_from` on.
+pub fn lie_hashes(
+    sim: &mut Sim,
+    p: usize,
+    m: packed::BlockFilterHashes,
+) -> (packed::BlockFilterHashes, bool) {
+    let pp = &sim.plan.peers[p];
+    if pp.lie_salt == 0 {
+        return (m, false);
+    }
+    let start: u64 = m.start_number().unpack();
+    let mut lied = false;
+    let hashes: Vec<Byte32> = m
+        .block_filter_hashes()
+        .into_iter()
+        .enumerate()
+        .map(|(i, h)| {
+            let n = start + i as u64;
+            if n >= pp.lie_from {
+                lied = true;
+                lie_value(pp.lie_salt, n)
+            } else {
+                h
+            }
+        })
+        .collect();
+    let parent = if start > 0 && start - 1 >= pp.lie_from {
+        lied = true;
+        lie_value(pp.lie_salt, start - 1)
+    } else {
+        m.parent_block_filter_hash()
+    };
+    if lied {
+        sim.stat("fault.byz.lying_filter_hashes");
+    }
+    (
+        m.as_builder()
+            .parent_block_filter_hash(parent)
+            .block_filter_hashes(hashes.pack())
+            .build(),
+        lied,
+    )
+}
+
+/// A deviating peer reports made-up check points from block `lie_from` on.
 pub fn lie_check_points(
-    _sim: &mut Sim,
-    _p: usize,
+    sim: &mut Sim,
+    p: usize,
     m: packed::BlockFilterCheckPoints,
 ) -> (packed::BlockFilterCheckPoints, bool) {
-    (m, false)
+    let pp = &sim.plan.peers[p];
+    if pp.lie_salt == 0 {
+        return (m, false);
+    }
+    let start: u64 = m.start_number().unpack();
+    let interval = sim.plan.knobs.check_point_interval;
+    let mut lied = false;
+    let hashes: Vec<Byte32> = m
+        .block_filter_hashes()
+        .into_iter()
+        .enumerate()
+        .map(|(i, h)| {
+            let n = start + i as u64 * interval;
+            if n >= pp.lie_from {
+                lied = true;
+                lie_value(pp.lie_salt, n)
+            } else {
+                h
+            }
+        })
+        .collect();
+    if lied {
+        sim.stat("fault.byz.lying_check_points");
+    }
+    (m.as_builder().block_filter_hashes(hashes.pack()).build(), lied)
 }
